@@ -58,6 +58,8 @@ def g12s_cmds(rng, tier, params):
         tape = hx(0, mo) + hx((1 << (8 * mo)) - 1, mo)[1:] + hx(q, mo)[1:] + hx(k, mo)[1:]
         out.append("g12s name=%s d=%s k=%s hash=%s alts=%s cls=d=redrawn:tape-rejects" % (name, tape, tape, be(rng.getrandbits(l), mo), "r^0,s=0"))
         out.append("g12s name=%s d=%s k=%s hash=%s alts= cls=tape-zero" % (name, hx(0, mo), hx(1, mo), be(1, mo)))
+        # the set in an object whose unused octets are arbitrary (g12s.h): validate, generate, sign, verify
+        out.append("g12s name=%s d=%s k=%s hash=%s alts= dirty=1 cls=d=seeded:dirty-object" % (name, hx(rng.getrandbits(l - 2) + 1, mo), hx(rng.getrandbits(l - 2) + 1, mo), be(rng.getrandbits(l), mo)))
         # s = 0 on the first nonce: d = -k e r^(-1) (mod q); the standard repeats the draw, the signature must verify
         k = rng.randrange(1, q); k2 = rng.randrange(1, q)
         H = rng.getrandbits(l)
